@@ -20,6 +20,8 @@ def run(chk, tier):
         A.tuple_order(chk, F, 'R14.1', cfg)
         A.push_table(chk, F, 'R14.2', cfg)
         A.each_deconstruct(chk, F, 'R14.3', cfg)
+        from props import builder as B
+        B.returner_error_latched(chk, F, 'R14.5', cfg)
         tfc = F.fn('assemble::MockAssembler::try_from_clause')
         for p in symex.Interp(F, inline=lambda f, d, n: f.kind == 'closure' or f.defp == 'assemble::MockAssembler::new').run(tfc):
             d = list(p.calls(r'^Clause::deconstruct$'))
@@ -33,6 +35,8 @@ def run(chk, tier):
                 sr = strip(r)
                 if lab.startswith('Err:propagated(deconstruct'):
                     okr = True
+                elif sr[0] == 'call' and sr[3] == d[0].data[3] and any(strip(d_.value)[0] == 'discr' and strip(strip(d_.value)[1]) == sr and symex.decision_variant(F, d_) == 'Err' for d_ in p.decisions):
+                    okr = True      # (the failed result itself, handed on as it is)
                 elif sr[0] == 'agg' and sr[3] == 'Ok' and sr[4]:
                     pay = sr[4][0][1]
                     okr = pay[0] == 'havoc' and len(pay) > 3 and pay[3].endswith('deconstruct') and strip(pay)[0] == 'agg' and strip(pay)[2] == 'assemble::MockAssembler'
